@@ -97,6 +97,21 @@ pub fn inputs<F: Fam>(tier: &str, seed: u64, ops: Option<&[String]>, n_quick: us
         }
         packets.push(p);
     }
+    if want_mut {
+        // frames built by hand, independently of the encoder under test: property sections in random
+        // order (v5), topics with lookalike characters (both families)
+        for t in crate::gen::lookalike_topics().iter().step_by(if tier == "thorough" { 1 } else { 4 }) {
+            bytes.extend(crate::gen::topic_frames(F::NAME == "v3", t));
+        }
+        if F::NAME == "v5" {
+            for l in crate::gen::gen("v5props", tier, seed).iter().step_by(if tier == "thorough" { 8 } else { 16 }) {
+                let t: Vec<&str> = l.split_whitespace().collect();
+                if let Some(b) = unhex(t[2]) {
+                    bytes.push(b);
+                }
+            }
+        }
+    }
     Inputs { packets, bytes }
 }
 
@@ -247,7 +262,12 @@ pub fn c02_property_boundaries(rep: &mut Report) {
         }
         out
     }
-    for target in [126usize, 127, 128, 129, 16382, 16383, 16384, 16385, 2097150, 2097151, 2097152, 2097153, 4194303, 4194304] {
+    let mut targets = vec![126usize, 127, 128, 129, 16382, 16383, 16384, 16385, 2097150, 2097151, 2097152, 2097153, 4194303, 4194304];
+    // … and wherever the length helpers of the code under test change value (found by the last total scan)
+    targets.extend(crate::pgen::boundaries().iter().cloned().filter(|b| *b >= 5 && *b <= (5 << 20)));
+    targets.sort();
+    targets.dedup();
+    for target in targets {
         let up = users(target);
         let section: usize = up.iter().map(|u| 5 + u.name.len() + u.value.len()).sum();
         let input = format!("v5 property section of exactly {} bytes ({} user properties)", section, up.len());
